@@ -45,6 +45,8 @@ def configs(tier):
                 out.append(c)
                 if model in ('shallowwater', 'euler1d') and (tier != 'quick' or num in ('extrapol1', 'extrapol3', 'muscl:minmod')):
                     out.append(dict(c, bc='sym'))
+                if tier != 'quick' or num in ('extrapol3', 'muscl:minmod'):
+                    out.append(dict(c, bc='open'))      # imposed-state / inlet-outlet boundaries: the integral changes by the boundary fluxes only
             if model == 'euler1d' and tier != 'quick':
                 for g in ('7/5', '5/3'):
                     out.append({'level': 'operator', 'model': model, 'flux': fl, 'num': 'muscl:vanleer', 'bc': 'per', 'n': 4, 'gamma': g})
@@ -77,8 +79,16 @@ def harness(cfg, B):
 
 
 def _operator(cfg, B):
-    d = cm.build1d(B, cfg)
+    d = cm.build1d(B, dict(cfg, bc='sym') if cfg['bc'] == 'open' else cfg)
     rhs, mesh, n, model = d['rhs'], d['mesh'], d['n'], d['model']
+    if cfg['bc'] == 'open':
+        if cfg['model'] == 'euler1d':
+            rhs.bcL = {'type': 'insub', 'ptot': B.pos('ptot', 3.0, 4.0), 'rttot': B.pos('rttot', 0.5, 3.0)}
+            rhs.bcR = {'type': 'outsub', 'p': B.pos('pout', 0.2, 1.0)}
+        else:
+            prm = [B.pos('dir%d' % k, 0.5, 2.0) for k in range(model.neq)]
+            rhs.bcL = {'type': 'dirichlet', 'prim': prm}
+            rhs.bcR = {'type': 'dirichlet', 'prim': list(prm)}
     R = rhs.rhs(d['field'])
     vol = mesh.vol()
     neq = model.neq
@@ -97,7 +107,7 @@ def _operator(cfg, B):
     if cfg['bc'] == 'per':
         for k in range(neq):
             B.ob('periodic-end-faces-same-flux:' + names[k], 'eq', F[k][n], F[k][0])
-    else:
+    elif cfg['bc'] == 'sym':
         inv = {'shallowwater': [0], 'euler1d': [0, 2]}[cfg['model']]
         for k in inv:
             B.ob('wall-flux-left:' + names[k], 'eq', F[k][0], B.const(0), method='sweep')
